@@ -36,6 +36,7 @@ def check(model, tier):
     from ..rules import sqlemit as _sqlemit
 
     _sqlemit.r_anonymous_binds(ctx, "R12.8")
+    _sqlemit.r_flattened_predicate(ctx, "R12.9")
     from ..rules.foundation import run_foundation
 
     run_foundation(ctx, "12")
